@@ -5,7 +5,8 @@ ID = "C10"
 SHRINK = False
 RULE = ("random scenarios, each in its own subprocess (GOMAXPROCS 1/2/8): 0-3 subscribers with buffers -1(default)/0/1/2, timeouts off or 2 ms, 3-8 actions drawn from the six publish "
         "variants (1-2 events, distinct values), gated receivers (allow c n), Unsub/UnsubAll (also of unknown and nil channels), Sub during traffic, WithOnly clones; all calls run in "
-        "their own goroutines with small random delays; events stamped by one atomic counter (invocations before, responses/receives/callbacks after); every trace must be accepted by the "
+        "their own goroutines with small random delays; family clone-splice: a WithOnly clone, then Unsub/Sub of OTHER subscribers on the parent, then publishes through clone and parent; family live: every subscriber is received from without limit, no timeout "
+        "(every call must return, every event - asynchronous ones too - must reach every subscriber that stays subscribed, deadlocks are verdicts; an asynchronous publish followed back to back by the Unsub of an earlier subscriber); events stamped by one atomic counter (invocations before, responses/receives/callbacks after); every trace must be accepted by the "
         "Lean transition system of pubsub.go and satisfy the history predicates (exactly-once, order, after-removal, error codes, exit status); scenarios that block for good are inconclusive; "
         "non-trivial = at least one publish and one subscriber")
 ASSUMPTIONS = ["channels, select, timers, RWMutex (writer preference), WaitGroup by contract", "the 'eventually' of Pub/PubSlice is liveness under fairness and is not proved",
